@@ -39,6 +39,8 @@ func runC06(c *Ctx) {
 	c06R3(c)
 	c15R2(c, "C06.R4")
 	c04R1(c)
+	// nothing on the handler chain removes the marker from the live request
+	c08R2(c)
 }
 
 // isForwardedTest: v == (req.Header.Get("x-piko-forward") == "true")
